@@ -196,12 +196,32 @@ theorem strip_pageSel (s : SPageSel) : strip s.toks = s.noC.toks := by
     | none => rfl
     | some p => rfl
 
+/-- the optional name without the comments of its gap -/
+def SName.noC : SName → SName
+  | some (q, n, g) => some (q, n, g.noC)
+  | none => none
+
+theorem strip_nameToks (name : SName) (l : List Tok) :
+    strip (nameToks name ++ l) = nameToks (SName.noC name) ++ strip l := by
+  cases name with
+  | none => rfl
+  | some p =>
+    obtain ⟨q, n, g⟩ := p
+    simp only [nameToks, SName.noC, List.cons_append]
+    rw [strip_keep _ _ (by simp [strTok]), strip_append, strip_gap]
+
+theorem SName.noC_value (name : SName) : (SName.noC name).map (·.2.1) = name.map (·.2.1) := by
+  cases name with
+  | none => rfl
+  | some p => rfl
+
 mutual
 def SRule.noC : SRule → SRule
   | .comment b => .comment b
   | .style sel blk => .style sel.noC blk.noC
   | .unknown t => .unknown (strip t)
-  | .media kw g1 mq g2 lead rules => .media kw g1.noC (strip mq) g2.noC (lead ++ (SRules.noC rules).1) (SRules.noC rules).2
+  | .media kw g1 mq g2 name lead rules =>
+    .media kw g1.noC (strip mq) g2.noC (SName.noC name) (lead ++ (SRules.noC rules).1) (SRules.noC rules).2
   | .fontface kw g1 blk => .fontface kw g1.noC blk.noC
   | .page kw g0 sel g1 blk => .page kw g0.noC sel.noC g1.noC blk.noC
 /-- the rules without the comment rules; the white space after a dropped comment joins the gap before it -/
@@ -210,8 +230,8 @@ def SRules.noC : SRules → WGap × SRules
   | .cons (.comment _) w rest => (w ++ (SRules.noC rest).1, (SRules.noC rest).2)
   | .cons (.style sel blk) w rest => ([], .cons (SRule.noC (.style sel blk)) (w ++ (SRules.noC rest).1) (SRules.noC rest).2)
   | .cons (.unknown t) w rest => ([], .cons (SRule.noC (.unknown t)) (w ++ (SRules.noC rest).1) (SRules.noC rest).2)
-  | .cons (.media kw g1 mq g2 lead rules) w rest =>
-    ([], .cons (SRule.noC (.media kw g1 mq g2 lead rules)) (w ++ (SRules.noC rest).1) (SRules.noC rest).2)
+  | .cons (.media kw g1 mq g2 name lead rules) w rest =>
+    ([], .cons (SRule.noC (.media kw g1 mq g2 name lead rules)) (w ++ (SRules.noC rest).1) (SRules.noC rest).2)
   | .cons (.fontface kw g1 blk) w rest =>
     ([], .cons (SRule.noC (.fontface kw g1 blk)) (w ++ (SRules.noC rest).1) (SRules.noC rest).2)
   | .cons (.page kw g0 sel g1 blk) w rest =>
@@ -231,9 +251,10 @@ theorem strip_srule : ∀ (r : SRule), (∀ b, r ≠ .comment b) → strip r.tok
   | .style sel blk, _ => by
     simp only [SRule.toks, SRule.noC, strip_append, strip_sel, strip_braces, strip_block]
   | .unknown t, _ => by simp [SRule.toks, SRule.noC]
-  | .media kw g1 mq g2 lead rules, _ => by
+  | .media kw g1 mq g2 name lead rules, _ => by
     simp only [SRule.toks, SRule.noC]
     rw [strip_atTok _ _ _ _ (by decide), strip_append, strip_gap, strip_append, strip_append, strip_gap,
+      strip_nameToks,
       show lbraceTok :: (WGap.toks lead ++ (rules.toks ++ [rbraceTok])) =
         lbraceTok :: ((WGap.toks lead ++ rules.toks) ++ [rbraceTok]) by simp, strip_braces,
       strip_append, strip_wgap, strip_srules rules, wgap_toks_append]
@@ -259,9 +280,9 @@ theorem strip_srules : ∀ (rs : SRules), strip rs.toks = WGap.toks (SRules.noC 
     simp only [SRules.toks, SRules.noC, strip_append, strip_wgap, strip_srules rest, wgap_toks_append,
       strip_srule (.unknown t) (by simp)]
     simp [WGap.toks]
-  | .cons (.media kw g1 mq g2 lead rules) w rest => by
+  | .cons (.media kw g1 mq g2 name lead rules) w rest => by
     simp only [SRules.toks, SRules.noC, strip_append, strip_wgap, strip_srules rest, wgap_toks_append,
-      strip_srule (.media kw g1 mq g2 lead rules) (by simp)]
+      strip_srule (.media kw g1 mq g2 name lead rules) (by simp)]
     simp [WGap.toks]
   | .cons (.fontface kw g1 blk) w rest => by
     simp only [SRules.toks, SRules.noC, strip_append, strip_wgap, strip_srules rest, wgap_toks_append,
@@ -276,7 +297,8 @@ end
 def SImp.noC : SImp → SImp
   | .comment b => .comment b
   | .unknown t => .unknown (strip t)
-  | .import_ kw g1 href g2 mq => .import_ kw g1.noC href g2.noC (mq.map fun p => (strip p.1, p.2.noC))
+  | .import_ kw g1 href g2 mq name =>
+    .import_ kw g1.noC href g2.noC (mq.map fun p => (strip p.1, p.2.noC)) (SName.noC name)
 
 def SNs.noC : SNs → SNs
   | .comment b => .comment b
@@ -288,8 +310,8 @@ def noCImps (tail : WGap) : List (SImp × WGap) → WGap × List (SImp × WGap)
   | [] => (tail, [])
   | (.comment _, w) :: rest => (w ++ (noCImps tail rest).1, (noCImps tail rest).2)
   | (.unknown t, w) :: rest => ([], (SImp.noC (.unknown t), w ++ (noCImps tail rest).1) :: (noCImps tail rest).2)
-  | (.import_ kw g1 href g2 mq, w) :: rest =>
-    ([], (SImp.noC (.import_ kw g1 href g2 mq), w ++ (noCImps tail rest).1) :: (noCImps tail rest).2)
+  | (.import_ kw g1 href g2 mq name, w) :: rest =>
+    ([], (SImp.noC (.import_ kw g1 href g2 mq name), w ++ (noCImps tail rest).1) :: (noCImps tail rest).2)
 
 def noCNss (tail : WGap) : List (SNs × WGap) → WGap × List (SNs × WGap)
   | [] => (tail, [])
@@ -301,11 +323,12 @@ def noCNss (tail : WGap) : List (SNs × WGap) → WGap × List (SNs × WGap)
 theorem strip_href (h : SHref) (l : List Tok) : strip (h.tok :: l) = h.tok :: strip l :=
   strip_keep _ _ (by cases h <;> simp [SHref.tok])
 
-theorem strip_simp_toks (kw : Mask) (g1 : Gap) (href : SHref) (g2 : Gap) (mq : Option (List Tok × Gap)) :
-    strip (SImp.import_ kw g1 href g2 mq).toks = (SImp.noC (.import_ kw g1 href g2 mq)).toks := by
+theorem strip_simp_toks (kw : Mask) (g1 : Gap) (href : SHref) (g2 : Gap) (mq : Option (List Tok × Gap))
+    (name : SName) :
+    strip (SImp.import_ kw g1 href g2 mq name).toks = (SImp.noC (.import_ kw g1 href g2 mq name)).toks := by
   simp only [SImp.toks, SImp.noC]
   rw [strip_atTok _ _ _ _ (by decide), strip_append, strip_gap, strip_href, strip_append, strip_gap, strip_append,
-    strip_semi]
+    strip_nameToks, strip_semi]
   cases mq with
   | none => rfl
   | some p => obtain ⟨m, g3⟩ := p; simp [impMqToks, strip_append, strip_gap]
@@ -336,7 +359,7 @@ theorem strip_imps (tail : WGap) (l : List (SImp × WGap)) :
     | unknown t =>
       simp only [noCImps, renderImps, wgap_toks_append]
       simp [SImp.toks, SImp.noC, WGap.toks]
-    | import_ kw g1 href g2 mq =>
+    | import_ kw g1 href g2 mq name =>
       simp only [noCImps, renderImps, wgap_toks_append, strip_simp_toks]
       simp [WGap.toks]
 
@@ -576,8 +599,8 @@ theorem SRule.noC_erase : ∀ (r : SRule), (∀ b, r ≠ .comment b) → eraseCR
   | .comment b, h => absurd rfl (h b)
   | .style sel blk, _ => by simp [SRule.erase, SRule.noC, eraseCRule, SSel.noC_erase, SBlock.noC_erase]
   | .unknown t, _ => by simp [SRule.erase, SRule.noC, eraseCRule]
-  | .media kw g1 mq g2 lead rules, _ => by
-    simp [SRule.erase, SRule.noC, eraseCRule, strip_strip, SRules.noC_erase rules]
+  | .media kw g1 mq g2 name lead rules, _ => by
+    simp [SRule.erase, SRule.noC, eraseCRule, strip_strip, SRules.noC_erase rules, SName.noC_value]
   | .fontface kw g1 blk, _ => by simp [SRule.erase, SRule.noC, eraseCRule, SBlock.noC_erase]
   | .page kw g0 sel g1 blk, _ => by
     simp only [SRule.erase, SRule.noC, eraseCRule, SPageSel.noC, SPageBlock.eraseItems, SPageBlock.eraseMargins,
@@ -598,8 +621,8 @@ theorem SRules.noC_erase : ∀ (rs : SRules), (SRules.noC rs).2.erase = eraseCRu
   | .cons (.unknown t) w rest => by
     simp only [SRules.noC, SRules.erase, eraseCRules, SRule.noC_erase (.unknown t) (by simp), SRules.noC_erase rest]
     simp
-  | .cons (.media kw g1 mq g2 lead rules) w rest => by
-    simp only [SRules.noC, SRules.erase, eraseCRules, SRule.noC_erase (.media kw g1 mq g2 lead rules) (by simp),
+  | .cons (.media kw g1 mq g2 name lead rules) w rest => by
+    simp only [SRules.noC, SRules.erase, eraseCRules, SRule.noC_erase (.media kw g1 mq g2 name lead rules) (by simp),
       SRules.noC_erase rest]
     simp
   | .cons (.fontface kw g1 blk) w rest => by
@@ -639,10 +662,10 @@ theorem noCImps_erase (tail : WGap) (l : List (SImp × WGap)) :
       have e3 : eraseCRule (.unknown t) = some (.unknown (strip t)) := by simp [eraseCRule]
       simp only [noCImps, List.map_cons, e1, e2, eraseCRules_cons, e3, ih]
       rfl
-    | import_ kw g1 href g2 mq =>
-      have e1 : (SImp.noC (.import_ kw g1 href g2 mq)).erase = (SImp.import_ kw g1 href g2 mq).erase := by
-        cases mq <;> simp [SImp.noC, SImp.erase, strip_strip]
-      have e3 : eraseCRule (SImp.import_ kw g1 href g2 mq).erase = some (SImp.import_ kw g1 href g2 mq).erase := by
+    | import_ kw g1 href g2 mq name =>
+      have e1 : (SImp.noC (.import_ kw g1 href g2 mq name)).erase = (SImp.import_ kw g1 href g2 mq name).erase := by
+        cases mq <;> simp [SImp.noC, SImp.erase, strip_strip, SName.noC_value]
+      have e3 : eraseCRule (SImp.import_ kw g1 href g2 mq name).erase = some (SImp.import_ kw g1 href g2 mq name).erase := by
         simp [SImp.erase, eraseCRule]
       simp only [noCImps, List.map_cons, e1, eraseCRules_cons, e3, ih]
       rfl
